@@ -7,8 +7,12 @@
 (* Observed: flags, and the gain projected by the harness on classes          *)
 (*   "Z" |g| <= 1e-12, "O" |g - 1| <= 1e-12, "P" strictly between, "X" outside *)
 (* [0, 1] by more than 1e-12; q = gain in millionths (implementation layer     *)
-(* only); flags2 / same = flags of a second call on different voltages and     *)
-(* whether the two gains agree to 1e-12.                                       *)
+(* only); nc2, co2, cs2, ca2, flags2, cls2, q2 = the same for a second call on  *)
+(* other voltages realising the same abstract input (other channel count,      *)
+(* element type, layout, argument forms); same = whether the two gains agree   *)
+(* to 1e-12.  Both calls are judged: the second one by FlagP, and by the gain   *)
+(* clauses when its flags differ from the first call's (when they are equal,   *)
+(* FlagsOnlyP carries the first call's gain verdict over).                     *)
 (***************************************************************************)
 EXTENDS Integers, Sequences, TLC, Json, IOUtils
 
@@ -43,6 +47,14 @@ G == [t \in 1..Len(T.cls) |->
           [] OTHER -> <<S!Max(1, Min(T.q[t], S!UNIT - 1)), S!Max(1, Min(T.q[t], S!UNIT - 1))>>]
 
 Shape == Len(T.flags) = T.ns /\ Len(T.cls) = T.ns /\ Len(T.q) = T.ns
+Shape2 == Len(T.flags2) = T.ns /\ Len(T.cls2) = T.ns /\ Len(T.q2) = T.ns
+G2 == [t \in 1..Len(T.cls2) |->
+        CASE T.cls2[t] = "Z" -> <<0, 0>>
+          [] T.cls2[t] = "O" -> <<S!UNIT, S!UNIT>>
+          [] T.cls2[t] = "X" -> <<-1, S!UNIT + 1>>
+          [] OTHER -> <<S!Max(1, Min(T.q2[t], S!UNIT - 1)), S!Max(1, Min(T.q2[t], S!UNIT - 1))>>]
+\* the second call's gain needs its own verdict only when its flags are not the first call's
+Own2 == Shape /\ Shape2 /\ T.flags2 # T.flags
 Sum(a, b) == [t \in 1..Len(a) |-> a[t] + b[t]]
 
 Check ==
@@ -56,7 +68,12 @@ Check ==
           <<T.exc # "" \/ ~Shape \/ S!RangeP(G), "Range">>,
           <<T.exc # "" \/ ~Shape \/ S!ZeroP(T.flags, G), "ZeroOnFlag">>,
           <<T.exc # "" \/ ~Shape \/ S!OneP(T.flags, G, T.M), "OneFar">>,
-          <<T.exc # "" \/ ~Shape \/ S!FlagsOnlyP(T.flags, T.flags2, T.same), "FlagsOnly">> >>)
+          <<T.exc # "" \/ ~Shape \/ S!FlagsOnlyP(T.flags, T.flags2, T.same), "FlagsOnly">>,
+          <<T.exc # "" \/ Shape2, "OneValuePerSample:2">>,
+          <<T.exc # "" \/ ~Shape2 \/ S!FlagP(T.flags2, T.nc2, <<T.a, T.b>>, T.co2, T.cs2, T.ca2), "Flag:2">>,
+          <<T.exc # "" \/ ~Own2 \/ S!RangeP(G2), "Range:2">>,
+          <<T.exc # "" \/ ~Own2 \/ S!ZeroP(T.flags2, G2), "ZeroOnFlag:2">>,
+          <<T.exc # "" \/ ~Own2 \/ S!OneP(T.flags2, G2, T.M), "OneFar:2">> >>)
     /\ impl' = Pick(impl, <<
           <<T.exc # "" \/ ~Shape \/ S!FlagP(T.flags, T.nc, <<T.a, T.b>>, T.co, Sum(T.cs, T.ca), [t \in 1..T.ns |-> 0]), "Slew>=">>,
           <<T.exc # "" \/ ~Shape \/ T.M > S!MaxWidth \/
